@@ -37,8 +37,8 @@ def run(rep, prog, tier):
     families.check_ids_rooted_at_self(rep, prog, 'C16.4')
     check_recency(rep, prog)
     check_key_form_predicates(rep, prog)
-    families.check_pkesk_selection(rep, prog, 'C16.6')
-    families.check_sessionkey_consumers(rep, prog, 'C16.6')
+    check_pkesk_selection(rep, prog)
+    check_sessionkey_consumers(rep, prog)
     check_decrypt_delegation(rep, prog)
 
 
@@ -502,6 +502,125 @@ def check_key_form_predicates(rep, prog):
     rep.check(not wrong, 'C16.2', 'String2Key.__bool__', 'true exactly for usage octets 254, 255',
               'secret material is protected iff the S2K usage octet is 254 or 255', where=sb.where, expected=[254, 255],
               found='differs for %s' % wrong[:8])
+
+
+def check_pkesk_selection(rep, prog):
+    """Addressed itself, the key unwraps the session-key packet that is a public-key session-key packet of its own algorithm
+    AND names its own key id.  "Addressed" is a scenario fact (own key id in message.encrypters, whichever way the test is
+    spelled or oriented); the selection filter is evaluated as a boolean function."""
+    fi = prog.method('pgpy.pgp', 'PGPKey', 'decrypt')
+    me, msg = fi.params[0], fi.params[1]
+    own = '%s.fingerprint.keyid' % me
+
+    def oracle(t):
+        m = re.match(r'^\((.+?) (not in|in) (.+)\)$', t)
+        if m and m.group(1) == own and m.group(3) in ('%s.encrypters' % msg, 'set(%s.encrypters)' % msg):
+            return m.group(2) == 'in'
+        return None
+    outs = Interp(prog, Scenario(bind={'%s.is_encrypted' % msg: Const(True)}, inline=noinline, oracle=oracle)).run(fi)
+    n = 0
+    for s in outs:
+        if s.raised is not None:
+            continue
+        dsk = [c for c in s.calls if c[0].endswith('.decrypt_sk')]
+        if not dsk:
+            rep.violation('C16.6', 'PGPKey.decrypt', 'no decrypt_sk call', 'the key never recovers a session key', where=fi.where)
+            continue
+        n += 1
+        t = dsk[0][0][:-len('.decrypt_sk')]
+        m = re.match(r'^next\(EACH\((\$[\d.]+) in %s\._sessionkeys if (.*);\1\)(?:, None)?\)$' % re.escape(msg), t)
+        if not m:
+            v = t if t in s.bound and s.bound[t] == '%s._sessionkeys' % msg else None
+            cond = s.filters.get(v) if v else None
+            if cond is None:
+                raise AnalysisError('PGPKey.decrypt: selection of the session-key packet %s not understood' % t[:120])
+        else:
+            v, cond = m.group(1), m.group(2)
+        fn = BoolFn(cond)
+        want = [('expr', 'isinstance(%s, PKESessionKey)' % v), ('eq', frozenset(('%s.pkalg' % v, '%s.key_algorithm' % me))),
+                ('eq', frozenset(('%s.encrypter' % v, own)))]
+        bad = None
+        for a in fn.assignments():
+            if fn.value(a) and not all(a.get(w) is True for w in want):
+                bad = bad or a
+        rep.check(bad is None, 'C16.6', 'PGPKey.decrypt', 'session-key packet selection %s' % t[:140],
+                  'with several recipients the packet used must be the one addressed to this key id (and algorithm)', where=fi.where,
+                  expected='isinstance(pk, PKESessionKey) and pk.pkalg == self.key_algorithm and pk.encrypter == self.fingerprint.keyid',
+                  found=t if bad is None else '%s passes a packet under [%s]' % (cond, keyaction._show(bad)))
+    if not n:
+        rep.violation('C16.6', 'PGPKey.decrypt', 'no decrypt_sk call', 'the key never recovers a session key', where=fi.where)
+
+
+def check_sessionkey_consumers(rep, prog):
+    """Every iteration over a `_sessionkeys` list reads class-specific attributes of an element only where an isinstance test of
+    that element guards the read: a filter of the comprehension / generator (placed before the read), or an enclosing `if` in
+    a loop body (guard clauses are already nested ifs after canonicalisation)."""
+    pk = prog.cls('pgpy.packet.packets', 'PKESessionKeyV3')
+    sk = prog.cls('pgpy.packet.packets', 'SKESessionKeyV4')
+    common = families.class_attr_names(pk) & families.class_attr_names(sk)
+
+    def is_guard(test, var):
+        """isinstance(var, ..) itself, or the first conjunct of an `and` chain"""
+        if isinstance(test, ast.BoolOp) and isinstance(test.op, ast.And):
+            return is_guard(test.values[0], var)
+        return isinstance(test, ast.Call) and dotted(test.func) == 'isinstance' and bool(test.args) and \
+            isinstance(test.args[0], ast.Name) and test.args[0].id == var
+
+    def reads(node, var):
+        return set(x.attr for x in ast.walk(node) if isinstance(x, ast.Attribute) and isinstance(x.value, ast.Name) and x.value.id == var)
+
+    def unguarded(stmts, var):
+        out = set()
+        for st in stmts:
+            if isinstance(st, ast.If) and is_guard(st.test, var):
+                first = st.test.values[0] if isinstance(st.test, ast.BoolOp) else st.test
+                out |= reads(first, var) | unguarded(st.orelse, var)
+            elif isinstance(st, ast.If):
+                out |= reads(st.test, var) | unguarded(st.body, var) | unguarded(st.orelse, var)
+            elif isinstance(st, (ast.For, ast.While, ast.With, ast.Try)):
+                for part in ('body', 'orelse', 'finalbody'):
+                    out |= unguarded(getattr(st, part, []) or [], var)
+                for h in getattr(st, 'handlers', []) or []:
+                    out |= unguarded(h.body, var)
+                for f_ in ('iter', 'test'):
+                    if getattr(st, f_, None) is not None:
+                        out |= reads(getattr(st, f_), var)
+            else:
+                out |= reads(st, var)
+        return out
+    n = 0
+    for fn in prog.all_functions():
+        for node in ast.walk(fn.node):
+            sites = []
+            if isinstance(node, (ast.GeneratorExp, ast.ListComp, ast.SetComp, ast.DictComp)):
+                for g in node.generators:
+                    if isinstance(g.target, ast.Name) and '_sessionkeys' in ast.unparse(g.iter):
+                        var, touched, guarded = g.target.id, set(), 'isinstance' in ast.unparse(g.iter)
+                        for i in g.ifs:
+                            if not guarded:
+                                if is_guard(i, var):
+                                    guarded = True
+                                    first = i.values[0] if isinstance(i, ast.BoolOp) else i
+                                    touched |= reads(first, var)
+                                else:
+                                    touched |= reads(i, var)
+                        if not guarded:
+                            touched |= reads(node.elt if not isinstance(node, ast.DictComp) else node.value, var)
+                            if isinstance(node, ast.DictComp):
+                                touched |= reads(node.key, var)
+                        sites.append((g.iter, var, touched))
+            elif isinstance(node, ast.For) and isinstance(node.target, ast.Name) and '_sessionkeys' in ast.unparse(node.iter):
+                var = node.target.id
+                pre = 'isinstance' in ast.unparse(node.iter)         # an inner generator may already have filtered
+                sites.append((node.iter, var, set() if pre else unguarded(node.body, var)))
+            for it, var, touched in sites:
+                n += 1
+                specific = sorted(a for a in touched if a not in common)
+                rep.check(not specific, 'C16.6', fn.qualname, 'iteration over %s touching %s' % (ast.unparse(it)[:50], specific),
+                          'a message can carry public-key and passphrase session-key packets at once; class-specific fields %s are read '
+                          'without an isinstance filter' % specific, where='%s:%d' % (fn.module.relpath, node.lineno),
+                          expected='isinstance(%s, <class>) filter' % var, found=ast.unparse(node)[:160])
+    return n
 
 
 def check_decrypt_delegation(rep, prog):
